@@ -123,8 +123,11 @@ func (hs *heightSub) wait(ctx context.Context, height uint64, stored func() bool
 		return nil
 	case <-ctx.Done():
 		// no need to keep the request, if the op has canceled
+		// (unless the height was notified meanwhile: the entry there may be a later waiter's)
 		hs.heightSubsLk.Lock()
-		hs.notify(height, false)
+		if curr, ok := hs.heightSubs[height]; ok && curr == sac {
+			hs.notify(height, false)
+		}
 		hs.heightSubsLk.Unlock()
 		return ctx.Err()
 	}
